@@ -14,6 +14,13 @@ build() {
 }
 BIN=/verif/.target/verif/owlmc
 export OWLMC_REL=/verif/.target/release/owlmc
+export OWLMC_SRC="$OWLMC_DIR/owlmc"
+# optional monitor for C19 thorough: AddressSanitizer build (nightly); absence is not an error
+build_asan() {
+    (cd owlmc && RUSTFLAGS="-Zsanitizer=address" cargo +nightly build --offline --release \
+        --target x86_64-unknown-linux-gnu --target-dir /verif/.target/asan >>"$OWLMC_DIR/.build.log" 2>&1) \
+        && export OWLMC_ASAN=/verif/.target/asan/x86_64-unknown-linux-gnu/release/owlmc
+}
 case "$1" in
 setup)
     build
@@ -26,6 +33,7 @@ replay)
 *)
     build
     TIER="${2:-${VERIF_TIER:-quick}}"
+    if [ "$1" = "C19" ] && [ "$TIER" = "thorough" ]; then build_asan; fi
     exec "$BIN" check "$1" "$TIER"
     ;;
 esac
